@@ -5,7 +5,7 @@ From Coq Require Import NArith List Bool.
 Import ListNotations.
 From Coq Require Import ZArith.
 From CXV Require Import Gen.TokTy Gen.ParserTables Parse.Balanced Gen.Blocks Parse.BlocksSM.
-From CXV Require Import Base.Regex Gen.LexRules Lex.PlyLoop.
+From CXV Require Import Base.Regex Gen.LexRules Lex.PlyLoop Gen.StreamTables Stream.TokBuf.
 Open Scope N_scope.
 
 Definition nlen {A} (l : list A) : N := N.of_nat (length l).
@@ -90,8 +90,98 @@ Definition run_lex (args : list N) : list N :=
   | [] => [99]
   end.
 
+(* ---- op traces over the token stream ---- *)
+Record ist := mkI { i_ts : ts; i_seen : list tok; i_loc : list N * Z }.
+
+Fixpoint find_off (o : N) (l : list tok) : option tok :=
+  match l with [] => None | t :: r => if toff t =? o then Some t else find_off o r end.
+
+Fixpoint lastloc (d : list N * Z) (l : list tok) : list N * Z :=
+  match l with [] => d | t :: r => lastloc (tloc t) r end.
+
+Definition upd (i : ist) (st' : ts) (newtok : option tok) : ist :=
+  let consumed := take (length (raw (i_ts i)) - length (raw st')) (raw (i_ts i)) in
+  mkI st' (match newtok with Some t => t :: i_seen i | None => i_seen i end) (lastloc (i_loc i) consumed).
+
+(* lists are length-prefixed *)
+Definition split_n (l : list N) : list N * list N :=
+  match l with n :: r => (take (N.to_nat n) r, drop (N.to_nat n) r) | [] => ([], []) end.
+
+Fixpoint split_strs (k : nat) (l : list N) : list (list N) * list N :=
+  match k with
+  | O => ([], l)
+  | S k' => let '(x, r) := split_n l in let '(xs, r') := split_strs k' r in (x :: xs, r')
+  end.
+
+Fixpoint mem_str (w : list N) (l : list (list N)) : bool :=
+  match l with [] => false | x :: r => if list_eqb w x then true else mem_str w r end.
+
+Definition enc_optres (r : sres (option tok)) (i : ist) : list N * ist :=
+  match r with
+  | SOk (Some t) st' => ([1; toff t; tty t], upd i st' (Some t))
+  | SOk None st' => ([0], upd i st' None)
+  | SEof => ([2], i) | SLexErr => ([3], i) | SStuck => ([4], i)
+  end.
+
+Definition enc_dox (o : option (list tok)) : list N :=
+  match o with None => [0] | Some l => 1 :: nlen l :: map toff l end.
+
+(* one op: returns (response, new state, remaining op encoding) *)
+Definition do_op (i : ist) (l : list N) : list N * ist * list N :=
+  match l with
+  | 1 :: r =>
+      match token (i_ts i) with
+      | SOk t st' => ([1; toff t; tty t], upd i st' (Some t), r)
+      | SEof => ([2], i, r) | SLexErr => ([3], i, r) | SStuck => ([4], i, r)
+      end
+  | 2 :: r => let '(o, i') := enc_optres (token_eof_ok (i_ts i)) i in (o, i', r)
+  | 3 :: r => let '(o, i') := enc_optres (token_newline_eof_ok (i_ts i)) i in (o, i', r)
+  | 4 :: r => let '(tys, r') := split_n r in
+              let '(o, i') := enc_optres (token_if_p (fun t => memN (tty t) tys) (i_ts i)) i in (o, i', r')
+  | 5 :: n :: r => let '(vals, r') := split_strs (N.to_nat n) r in
+              let '(o, i') := enc_optres (token_if_p (fun t => mem_str (ttext t) vals) (i_ts i)) i in (o, i', r')
+  | 6 :: r => let '(tys, r') := split_n r in
+              let '(o, i') := enc_optres (token_if_p (fun t => negb (memN (tty t) tys)) (i_ts i)) i in (o, i', r')
+  | 7 :: r => let '(tys, r') := split_n r in
+              match token_peek_if (fun t => memN (tty t) tys) (i_ts i) with
+              | SOk b st' => ([if b then 1 else 0], upd i st' None, r')
+              | SEof => ([2], i, r') | SLexErr => ([3], i, r') | SStuck => ([4], i, r')
+              end
+  | 8 :: r => let '(offs, r') := split_n r in
+              let toks := flat_map (fun o => match find_off o (i_seen i) with Some t => [t] | None => [] end) offs in
+              if Nat.eqb (length toks) (length offs)
+              then ([0], mkI (return_tokens toks (i_ts i)) (i_seen i) (i_loc i), r')
+              else ([5], i, r')
+  | 9 :: r =>
+      match get_doxygen (i_ts i) with
+      | SOk o st' => (enc_dox o, upd i st' None, r)
+      | SEof => ([2], i, r) | SLexErr => ([3], i, r) | SStuck => ([4], i, r)
+      end
+  | 10 :: r => let '(o, st') := get_doxygen_after (i_ts i) in (enc_dox o, upd i st' None, r)
+  | 11 :: r => (enc_loc (current_location (i_ts i) (i_loc i)), i, r)
+  | _ => ([98], i, [])
+  end.
+
+Fixpoint do_ops (fuel : nat) (i : ist) (l : list N) : list N :=
+  match fuel with
+  | O => []
+  | S f =>
+      match l with
+      | [] => []
+      | _ => let '(o, i', r) := do_op i l in (77 :: o) ++ do_ops f i' r
+      end
+  end.
+
+(* args: file (len-prefixed), text (len-prefixed), ops *)
+Definition run_stream (args : list N) : list N :=
+  let '(file, r) := split_n args in
+  let '(text, ops) := split_n r in
+  let st := stream_of file text in
+  do_ops (length ops) (mkI st [] (file, 1%Z)) ops.
+
 Definition run_case (cmd : N) (args : list N) : list N :=
   match cmd, args with
+  | 30, _ => run_stream args
   | 20, _ => run_lex args
   | 10, _ => run_blocks args
   | 1, s :: e :: toks =>
